@@ -925,6 +925,12 @@ Proof.
   destruct (effective c k) as [| |[]]; cbn; intuition.
 Qed.
 
+Lemma filter_id {A} (f : A -> bool) l : (forall x, In x l -> f x = true) -> filter f l = l.
+Proof.
+  induction l as [|a l IH]; intros H; cbn; [reflexivity|].
+  rewrite (H a (or_introl eq_refl)), IH; [reflexivity|]. intros x Hx. apply H. right. exact Hx.
+Qed.
+
 Lemma step_inbound c o c' e : step c o = Ok (c', e) ->
   delivered c' = delivered c ++ (match o with EvReadData d => d | _ => [] end) /\
   consumed c' = consumed c ++ (match o with Retrieve n => firstn n (inb c) | _ => [] end) /\
@@ -934,6 +940,5 @@ Proof.
   intros H. step_cases H; rewrite ?app_nil_r; repeat split; try reflexivity.
   all: try (destruct (h_fin c k); reflexivity).
   all: try (destruct (writing c); reflexivity).
-  all: symmetry; apply forallb_filter_id; apply forallb_forall; intros x Hx;
-       apply s_evs_in in Hx; subst x; reflexivity.
+  all: symmetry; apply filter_id; intros x Hx; apply s_evs_in in Hx; subst x; reflexivity.
 Qed.
